@@ -19,6 +19,7 @@ meta = {
     "status": status,
     "caught_by_or_reason": note,
     "demo": "demo_test.go.txt (drop into the repository root as *_test.go, package dns)",
+    "detected_by": ([p] if status == "detected" else []) if len(sys.argv) < 6 else sys.argv[5].split(","),
 }
 json.dump(meta, open(f"{dst}/meta.json", "w"), indent=1)
 print("kept", dst, status)
